@@ -404,6 +404,10 @@ fn final_oracles(w: &World) -> SimResult {
             .collect();
         let _ = handler_ids;
         for (id, point) in &denied_ids {
+            if m.ever_established.contains(id) {
+                // the same fact read as composition: the composite must deny whenever one of its fields does
+                soft_violation(violation!("C58/field-denial-ignored", "n{i}: a field of the composite denied connection {id} at {point}, yet the composite let it through (reported established)"));
+            }
             ensure!(!m.ever_established.contains(id), "C06/denied-but-established", "n{i}: connection {id} was denied at {point} but reported established");
             ensure!(!used_ids.contains(id), "C06/handler-used-after-denial", "n{i}: a handler of denied connection {id} ({point}) was put to use");
             for t in [1u8, 2, 3] {
